@@ -1336,6 +1336,7 @@ pub fn run(tier: &str, seed: u64, out: &Path) -> i32 {
         crate::strings_corr::cases_c03(&mut o, &mut r, th);
         crate::missed_corr::cases_c03(&mut o, &mut r, th);
         crate::vertical_corr::cases(&mut o, &mut r, th);
+        crate::attrs_corr::cases(&mut o, &mut r, th);
     }
     o.finish(out, jobs())
 }
